@@ -395,6 +395,112 @@ class Gen:
         return {"files": files, "markers": markers, "kind": kind, "min_version": self.min_version, "app_only": self.app_only}
 
 
+SESSION_HEADER = """import os
+import sys
+from feature_gates import FeatureGates
+FeatureGates.set_sourcemap_enabled(True)
+import pyteal as pt
+sys.path.insert(0, os.path.join(os.path.dirname(os.path.dirname(os.path.abspath(__file__))), "shared"))
+"""
+
+SESSION_FOOTER = """
+
+def _c15_session(argv):
+    import json
+    base, out, steps = os.path.realpath(argv[1]), argv[2], json.loads(argv[3])
+    builders = {"p1": build_p1, "p2": build_p2, "router": build_router}
+    results = []
+    for st in steps:
+        res = {"step": st}
+        try:
+            os.chdir(os.path.join(base, st["cwd"]))
+            res["cwd"] = os.getcwd()
+            if st["prog"] == "router":
+                rr = builders["router"]().compile(version=st["version"], with_sourcemaps=True, annotate_teal=st["annotate"],
+                                                  annotate_teal_concise=st["concise"])
+                progs = [(rr.approval_teal, rr.approval_sourcemap, None), (rr.clear_teal, rr.clear_sourcemap, None)]
+            else:
+                ast_ = builders[st["prog"]]()
+                r = pt.Compilation(ast_, pt.Mode.Application, version=st["version"]).compile(
+                    with_sourcemap=True, teal_filename=st["teal_filename"], annotate_teal=st["annotate"], annotate_teal_concise=st["concise"])
+                progs = [(r.teal, r.sourcemap, pt.compileTeal(ast_, pt.Mode.Application, version=st["version"]))]
+            res["programs"] = []
+            for teal, sm, plain in progs:
+                r3 = sm.r3_sourcemap
+                res["programs"].append({
+                    "teal": teal, "same_ast_plain": plain, "annotated": sm.annotated_teal, "json": r3.to_json(),
+                    "index": [list(cs) for cs in r3.index], "root": r3.source_root, "file_lines": r3.file_lines,
+                    "entries": [[l, c, e.source, e.source_line, e.source_column, e.name] for (l, c), e in r3.entries.items()]})
+        except Exception as e:
+            import traceback
+            res["error"] = [type(e).__name__, str(e)[:1500], traceback.format_exc()[-1500:]]
+        results.append(res)
+    with open(out, "w") as f:
+        json.dump(results, f)
+
+
+if __name__ == "__main__":
+    _c15_session(sys.argv)
+"""
+
+
+def session_project(rng):
+    """Files for a multi-compilation session: library modules under shared/ (put on sys.path by the driver),
+    the driver app/driver.py with build_p1 / build_p2 / build_router, and empty working directories at
+    different depths.  Paths are relative to the session root; markers map value -> [relpath, line, expected]."""
+    g = Gen(rng, {"stmts": 14, "depth": 2, "lib_stmts": 6})
+    avail = {"subs": [], "macros": [], "consts": [], "app": True, "itxn": False}
+    writers, imports = [], []
+    for i, (rel, mod) in enumerate([("shared/lib_s1.py", "lib_s1"), ("shared/spkg/lib_s2.py", "spkg.lib_s2")]):
+        w, names = g.lib(rel, i + 1, list(imports), avail, 2, 1, 1, 2)
+        writers.append(w)
+        imports.append("from %s import %s" % (mod, ", ".join(names["subs"] + names["macros"] + names["consts"])))
+        for k in names:
+            avail[k] += names[k]
+    w = FileWriter("app/driver.py", 0)
+    w.add(SESSION_HEADER.rstrip("\n"))
+    for l in imports:
+        w.add(l)
+    w.add("")
+    w.add("sv1 = pt.ScratchVar(pt.TealType.uint64)")
+    w.add("sv2 = pt.ScratchVar(pt.TealType.uint64)")
+    ctx = dict(avail)
+    ctx["vars"] = ["sv1", "sv2"]
+    for name in ("p1", "p2"):
+        w.add("")
+        w.add("def build_%s():" % name)
+        w.add("    return pt.Seq(")
+        g.budget = 12
+        while g.budget > 0:
+            g.stmts(w, 8, 1, ctx, n=3, expected=False)
+        w.add("        pt.Pop(%s + pt.Int({M}))," % avail["consts"][0], expected=False)
+        w.add("        pt.Int({M}),", expected=False)
+        w.add("    )")
+    w.add("")
+    w.add("def build_router():")
+    w.add('    router = pt.Router("sess", pt.BareCallActions(')
+    w.add("        no_op=pt.OnCompleteAction.create_only(pt.Seq(pt.Pop(%s(pt.Int({M}))), pt.Approve()))," % avail["subs"][0], expected=False)
+    w.add("    ), clear_state=pt.Seq(pt.Pop(pt.Int({M})), pt.Approve()))", expected=False)
+    w.add("    @router.method")
+    w.add("    def m1(a: pt.abi.Uint64, *, output: pt.abi.Uint64):")
+    w.add("        return pt.Seq(")
+    g.budget = 4
+    g.stmts(w, 12, 2, ctx, n=2, expected=False)
+    w.add("            output.set(a.get() + pt.Int({M})),", expected=False)
+    w.add("        )")
+    w.add("    return router")
+    w.add(SESSION_FOOTER.rstrip("\n"))
+    writers.append(w)
+    files = {"shared/spkg/__init__.py": "", "projA/.keep": "", "projB/build/.keep": "", "projC/.keep": "", "deep/er/dir/.keep": ""}
+    markers = {}
+    for fw in writers:
+        files[fw.relpath] = fw.text()
+        for m, (ln, exp) in fw.markers.items():
+            markers[m] = [fw.relpath, ln, exp]
+    return {"files": files, "markers": markers, "kind": "session", "min_version": max(g.min_version, 6), "app_only": True}
+
+
+
 def known_internal_path_project():
     """Replay of the finding `internal-path-substring`: a user module whose path contains one of
     StackFrame._internal_paths as a substring (here 'pyteal/ast' inside 'learnpyteal/astro/')."""
